@@ -285,7 +285,7 @@ pub fn run(ctx: &Ctx) -> Report {
          changed limits on resume; inbound: own Receive Maximum and peer publishes beyond it. Model: set of incomplete outbound exchanges of this connection / set of unacknowledged inbound ids. \
          non-trivial = the send window was full and an exchange completed afterwards, or the inbound window was exceeded",
     );
-    let n = ctx.tier.pick(150_000, 2_000_000);
+    let n = ctx.tier.pick(400_000, 2_000_000);
     let (st, v) = search(ctx, "c12.history", n, strategy, test);
     rep.absorb("histories", st, v, false);
     rep.assumptions.push("a duplicate of an inbound id that is still unacknowledged at a full window is asserted in neither direction".into());
